@@ -173,18 +173,18 @@ func checkStats(c casePlan, front, back *tcpsvc.Instance, conns []connResult) (s
 			frontTotal++
 		}
 	}
-	frontEnded := copiesEnded(front, frontTotal)
-	for si, name := range names {
+	frontEnded := copiesEnded(front, frontTotal) // (all servers of the instance together)
+	for _, name := range names {
 		users := map[string]want{}
 		var anon want
 		for i, r := range conns {
-			if c.Server == "direct" && i != si {
+			if frontServerOf(c, i) != name {
 				continue
 			}
-			if c.Auth && hasUsers(c.Server) {
-				w := users[userName(i)]
+			if u, ok := userOf(c, i); ok {
+				w := users[u]
 				w.add(r)
-				users[userName(i)] = w
+				users[u] = w
 			} else {
 				anon.add(r)
 			}
@@ -227,7 +227,10 @@ var recRelay = ev.New("C13", "relay",
 		"unless the documented wait rule (or a reply-less upstream) forced success, GET /servers/{s}/stats of both instances = ledger. "+
 		"A fourth close mode ends the session with a reset (SO_LINGER 0) by client or target after bytes were relayed both ways, either after both sides have read everything (statistics exact) "+
 		"or as soon as the client has seen a downlink byte (statistics within [received by the far side, written by the near side]); exactly one session for the right user either way. "+
-		"Evaluation = one connection. Non-trivial: first payload within +-T/2 of the wait deadline on a waiting relay, or one side half-closes first and the other still delivers >0 bytes, or the session is ended by a reset with bytes relayed, or early first bytes on a waiting relay are followed by more upload after the wait deadline (T+50ms, 2T, 4T: idle-open in between); distinct key = configuration class + connection class").
+		"Round 6: the front http server may speak HTTP proxy over TLS (enableTLS/certList, certificates from internal/tlsx in files) and the http chain client may use TLS towards the back instance (useTLS/rootCAs, serverName configured or inferred from the address); "+
+		"ss2022 front servers may have unsafeFallbackAddress (and allowSegmentedFixedLengthHeader): half of their connections are then non-Shadowsocks visitors (stream starting with an HTTP request, a TLS ClientHello header or random bytes; first segment 1, salt-1, salt, salt+1, header-1, header [43/59/75], header+1, 2*header, 517, larger; written at once or dribbled in two pieces) whose target is the fallback destination: same ledger / EOF / reset / statistics oracle, session anonymous; "+
+		"every instance runs with a debug-level logger (all fields encoded, output discarded) with probability 1/2. "+
+		"Evaluation = one connection. Non-trivial: a visitor relayed to the fallback destination, or first payload within +-T/2 of the wait deadline on a waiting relay, or one side half-closes first and the other still delivers >0 bytes, or the session is ended by a reset with bytes relayed, or early first bytes on a waiting relay are followed by more upload after the wait deadline (T+50ms, 2T, 4T: idle-open in between); distinct key = configuration class + connection class").
 	Require("first-payload-near-deadline", "half-close-then-opposite-flows", "failure-reply", "forced-success-reply", "wait-applies",
 		"path:dialled-before-first-bytes", "path:dialled-after-first-bytes", "client-never-sends", "first-exceeds-wait-buffer",
 		"server:socks5", "server:http", "server:none", "server:direct", "server:ss2022",
@@ -235,7 +238,14 @@ var recRelay = ev.New("C13", "relay",
 		"target:ok-ip", "target:ok-domain", "target:refused", "target:nxdomain", "target:router-reject-domain",
 		"routed:chain", "routed:direct-beside-chain",
 		"early-first-bytes-then-upload-after-wait-deadline",
-		"session-ended-by-reset-with-bytes-relayed", "reset-by:client", "reset-by:target", "reset:after-everything-was-read", "reset:bytes-possibly-in-flight")
+		"session-ended-by-reset-with-bytes-relayed", "reset-by:client", "reset-by:target", "reset:after-everything-was-read", "reset:bytes-possibly-in-flight",
+		// round 6
+		"server:http+tls", "client:http+tls", "client-tls:server-name-configured", "client-tls:server-name-from-address",
+		"fallback-visitor:relayed", "ss2022-client-on-fallback-server",
+		"fallback-visitor:http-request", "fallback-visitor:tls-client-hello", "fallback-visitor:random-bytes",
+		"fallback-first-segment:<salt", "fallback-first-segment:salt..header", "fallback-first-segment:=header", "fallback-first-segment:>header",
+		"fallback:first-segment-dribbled", "fallback:first-segment-one-write", "fallback:allow-segmented-header", "fallback:header-judged-on-first-read",
+		"front-logger:debug", "front-logger:info", "back-logger:debug", "back-logger:info")
 
 func workDir(t *testing.T) string {
 	if d := os.Getenv("VERIF_WORK"); d != "" {
@@ -253,6 +263,9 @@ func runWithRetry(c casePlan, dir string) (caseResult, bool) {
 			sig = strings.TrimPrefix(strings.Fields(res.violation)[0], "SIG=C13/")
 		}
 		recRelay.Label("first-try-retried:"+sig, 1)
+		if os.Getenv("VERIF_C13_TRACE") != "" {
+			fmt.Fprintf(os.Stderr, "first try (retried): %s%s\n  case: %s\n", res.harnessErr, res.violation, js(c))
+		}
 		return runCase(c, dir), true
 	}
 	return res, false
@@ -275,6 +288,9 @@ func record(c casePlan, res caseResult, retried bool) {
 
 func TestRelay(t *testing.T) {
 	dir := workDir(t)
+	if err := setupCerts(dir); err != nil {
+		t.Fatalf("SIG=C13/harness-error certificates: %v", err)
+	}
 	journal := filepath.Join(dir, fmt.Sprintf("journal-c13-%d.json", os.Getpid()))
 	rapid.Check(t, func(rt *rapid.T) {
 		probeUnreachable()
@@ -324,6 +340,29 @@ func TestReplayRelay(t *testing.T) {
 		}
 		if res.violation != "" {
 			t.Fatalf("%s\n  case: %s", res.violation, js(g))
+		}
+		return
+	}
+	if err := setupCerts(workDir(t)); err != nil {
+		t.Fatalf("SIG=C13/harness-error certificates: %v", err)
+	}
+	var fp struct {
+		Case *casePlan `json:"case"`
+	}
+	if json.Unmarshal(b, &fp) == nil && fp.Case != nil { // a plan of TestRelayOwnedClient
+		var f fakePlan
+		if err := json.Unmarshal(b, &f); err != nil {
+			t.Fatalf("not a C13 owned-client plan: %v", err)
+		}
+		res := runFakeCase(f, workDir(t))
+		if res.violation != "" && res.liveness {
+			res = runFakeCase(f, workDir(t))
+		}
+		if res.harnessErr != "" {
+			t.Skipf("environment: %s", res.harnessErr)
+		}
+		if res.violation != "" {
+			t.Fatalf("%s\n  case: %s", res.violation, js(f))
 		}
 		return
 	}
